@@ -92,10 +92,12 @@ FieldPatterns == {
    <<"assigned-in-loop-only",  "Int",  <<>>,  <<For("i", R01, <<SetF(1)>>)>>,                      "reject">>,
    <<"read-in-branch-before",  "Int",  <<C>>, <<If(Var("c"), <<ReadF>>, <<>>), SetF(1)>>,          "reject">>,
    \* an assignment to the same-named field of ANOTHER object does not initialise this one
-   <<"assigned-through-other-object", "Int", <<Param("o", "K", Absent)>>, <<FAssign(Var("o"), "fld", IntL(1))>>,          "reject">>,
-   <<"read-after-other-assigned",     "Int", <<Param("o", "K", Absent)>>, <<FAssign(Var("o"), "fld", IntL(1)), ReadF, SetF(2)>>, "reject">>,
-   <<"other-then-self-assigned",      "Int", <<Param("o", "K", Absent)>>, <<FAssign(Var("o"), "fld", IntL(1)), SetF(2), ReadF>>, "accept">> }
-FieldProbes == { Probe("field-" \o p[1], <<Class("K", <<>>, <<>>, <<Fld(p[2])>>, <<Init(p[3], p[4])>>)>>, <<Filler>>, p[5],
+   <<"assigned-through-other-object", "Int", <<Param("o", "Peer", Absent)>>, <<FAssign(Var("o"), "fld", IntL(1))>>,          "reject">>,
+   <<"read-after-other-assigned",     "Int", <<Param("o", "Peer", Absent)>>, <<FAssign(Var("o"), "fld", IntL(1)), ReadF, SetF(2)>>, "reject">>,
+   <<"other-then-self-assigned",      "Int", <<Param("o", "Peer", Absent)>>, <<FAssign(Var("o"), "fld", IntL(1)), SetF(2), ReadF>>, "accept">> }
+\* (Peer: another class with a field of the same name; a parameter of the class itself would be annotated with a name that is
+\*  not bound yet inside the class body - KF-C17-1)
+FieldProbes == { Probe("field-" \o p[1], <<Class("Peer", <<>>, <<>>, <<Def("fld", TRUE, "Int", IntL(0))>>, <<>>), Class("K", <<>>, <<>>, <<Fld(p[2])>>, <<Init(p[3], p[4])>>)>>, <<Filler>>, p[5],
                        [pattern |-> p[1], expected |-> p[5]]) : p \in FieldPatterns }
 
 Probes == CASE Part = "var" -> VarProbes [] Part = "field" -> FieldProbes [] Part = "global" -> GlobalProbes
